@@ -22,7 +22,7 @@ let () =
   let hist_meta = ref "" in
   let step_no = ref 0 in
   let pre_lines = ref [] and cur_st = ref [] in
-  let cur_op = ref None and orc = ref [] and res = ref ("", "") and xs = ref [] and hs = ref [] and gen = ref "" in
+  let cur_op = ref None and orc = ref [] and res = ref ("", "") and xs = ref [] and hs = ref [] and gen = ref "" and fault = ref false in
   let mismatches = ref 0 and checkfails = ref 0 in
   let report_mismatch proj m i =
     incr mismatches;
@@ -68,11 +68,14 @@ let () =
           (* property checkers on the implementation's own transition *)
           (if iclass <> "generr" then
             let post_impl = build_state ~switch:!switch ~listeners:post.M.st_listeners post_lines in
-            let fails = Checks.run ~pre ~op ~iclass ~xfers:(List.map parse_xfer ixs) ~trace:(List.map parse_hook ihs) ~post:post_impl ~gen:!gen in
+            let pxs = List.map parse_xfer ixs and phs = List.map parse_hook ihs in
+            let fails = Checks.run ~pre ~op ~iclass ~xfers:pxs ~trace:phs ~post:post_impl ~gen:!gen ~fault:!fault in
             List.iter (fun (prop, checker, detail) ->
               incr checkfails;
               Printf.printf "CHECK hist=%s step=%d prop=%s checker=%s op=[%s] detail=[%s] %s\n" !hist !step_no prop checker op_line detail !hist_meta) fails;
-            List.iter (fun k -> bump ("nt." ^ k)) (Checks.nontrivial ~pre ~op ~iclass ~post:post_impl))
+            let tags = Checks.nontrivial ~pre ~op ~iclass ~xfers:pxs ~trace:phs ~post:post_impl ~fault:!fault in
+            List.iter (fun k -> bump ("nt." ^ k)) tags;
+            Printf.printf "TAGS hist=%s step=%d %s\n" !hist !step_no (String.concat "," tags))
         with e ->
           report_mismatch "driver" (Printexc.to_string e) "")
   in
@@ -88,7 +91,7 @@ let () =
         listeners := []; step_no := 0; cur_op := None; cur_st := []; pre_lines := []
       end
       else if starts_with "OP " l then begin
-        cur_op := Some l; orc := []; res := ("", ""); xs := []; hs := []; gen := ""
+        cur_op := Some l; orc := []; res := ("", ""); xs := []; hs := []; gen := ""; fault := false
       end
       else if starts_with "ORC " l then orc := parse_orc l :: !orc
       else if starts_with "RES " l then begin
@@ -99,6 +102,7 @@ let () =
       else if starts_with "X " l then xs := l :: !xs
       else if starts_with "H " l then hs := l :: !hs
       else if starts_with "GEN " l then gen := String.sub l 13 1
+      else if starts_with "FAULT " l then fault := true
       else if l = "END" then begin
         process ();
         if !cur_op <> None then incr step_no;
